@@ -286,6 +286,7 @@ const C08_FAMILIES: &[u8] = &[0, 1, 2, 3, 3, 4, 4, 5, 6, 7];
 fn c08_test(raw: &RawText, st: &mut Stats) -> Result<(), Failure> {
     let (tc, text, _) = build_text(raw);
     st.class(family_name(tc.family));
+    text_size_classes(&text, st);
     let reference = reftok::tokenize(&text);
     match &reference {
         Ok(_) => st.class("ref:lexically-valid"),
@@ -405,6 +406,7 @@ fn c09_test(raw: &RawText, st: &mut Stats) -> Result<(), Failure> {
         }
     }
     st.class(family_name(tc.family));
+    text_size_classes(&text, st);
     let kinds: Vec<TokKind> = toks.iter().map(|t| t.kind).collect();
     let verdict = refparse::syntax_verdict(&kinds);
     match &verdict {
@@ -860,6 +862,7 @@ fn c10_test(raw: &RawC10, st: &mut Stats) -> Result<(), Failure> {
     }
     let r = layout::render(&file.atoms(), &raw.text.layout);
     let (viols, out) = c10_judge(&r.text)?;
+    text_size_classes(&r.text, st);
     st.class(&format!("violations-present:{}", viols.len().min(4)));
     for v in &viols {
         st.class(&format!("present:{}", v.kind()));
@@ -1111,6 +1114,10 @@ fn c16_test(raw: &RawC10, st: &mut Stats) -> Result<(), Failure> {
     match c16_compare(&ra, &rb) {
         Ok((stage, _)) => {
             st.class(&format!("outcome:{stage}"));
+            text_size_classes(&ra.text, st);
+            if ra.features.huge_lead != rb.features.huge_lead {
+                st.class("only-one-layout-has:first-token-beyond-64KiB");
+            }
             if diff_kinds >= 3 {
                 st.nontrivial(&(ra.text.clone(), rb.text.clone()));
                 if st.want_sample() {
